@@ -26,9 +26,10 @@ partial def toRStep (exprs : List (String × Acts.Expr)) (env : Acts.Vars) (s : 
   let as ← s.acts.mapM (toRAct exprs env)
   pure (.mk s.id c bs as)
 partial def toRBranch (exprs : List (String × Acts.Expr)) (env : Acts.Vars) (b : Branch) : Option RBranch := do
-  if !b.needs.isEmpty then none
   let ss ← b.steps.mapM (toRStep exprs env)
-  if b.isElse && b.cond.isNone then pure (.mk b.id .otherwise ss)
+  -- a branch with `needs` waits for the siblings it names; its own `if` / `else` is never looked at (not generated together)
+  if !b.needs.isEmpty then (if b.cond.isSome || b.isElse then none else pure (.mk b.id (.needs b.needs) ss))
+  else if b.isElse && b.cond.isNone then pure (.mk b.id .otherwise ss)
   else match b.cond with
     | some _ => do
       let c ← condVal exprs env b.cond
@@ -52,6 +53,8 @@ def refCase (req : Lean.Json) : Lean.Json :=
   | none => Lean.Json.mkObj [("in_fragment", Lean.Json.bool false)]
   | some ss =>
     let rw : RWorkflow := ⟨w.id, ss⟩
+    -- `needs` lists that name no condition branch of their step are outside the interpretation (the wait-cycle shapes)
+    if !rw.wf then Lean.Json.mkObj [("in_fragment", Lean.Json.bool false), ("why", Lean.Json.str "needs-not-well-formed")] else
     let answers := (jarr req "answered").toList.map fun l => (asArr l).toList.map asStr
     let out := answers.map fun ans =>
       let a : Answered := fun i => ans.contains i
